@@ -122,6 +122,10 @@ func (s *ksSched) AfterUnlock(_ *sync.RWMutex, write bool) {
 		s.readers--
 		t.holdsR--
 	}
+	// the instant right after an unlock is a scheduling point too: whatever the caller does next with what it
+	// read under the lock (e.g. remember it) can be overtaken by a complete operation of another goroutine
+	s.events <- ksReq{t: t, kind: "yield", site: "after-unlock"}
+	<-t.resume
 }
 func (s *ksSched) Yield(site string) {
 	t := s.cur
@@ -378,6 +382,15 @@ func genKsScript(seed uint64) *KsScript {
 	nt := r.Range(2, 4)
 	addrs := []string{"did:panacea:A#key1", "addr2", "x"}[:r.Range(1, 3)]
 	total := r.Range(3, 8)
+	weights := []int{4, 2, 5}
+	if r.Chance(0.45) {
+		// contended: one address, many saves and by-address loads (a stale answer needs a save overtaking a
+		// by-address load, and then one more by-address load)
+		addrs = addrs[:1]
+		nt = r.Range(2, 3)
+		total = r.Range(5, 9)
+		weights = []int{4, 1, 6}
+	}
 	keyN := 0
 	var saves []int
 	for t := 0; t < nt; t++ {
@@ -387,7 +400,7 @@ func genKsScript(seed uint64) *KsScript {
 		t := r.Intn(nt)
 		idx := t*100 + len(s.Tasks[t])
 		a := addrs[r.Intn(len(addrs))]
-		switch r.Pick([]int{4, 2, 5}) {
+		switch r.Pick(weights) {
 		case 0:
 			keyN++
 			s.Tasks[t] = append(s.Tasks[t], KsOp{Kind: "save", Addr: a, Key: fmt.Sprintf("%064x", uint64(keyN)+seed<<8)})
@@ -542,7 +555,7 @@ func runKsScript(sc *KsScript, scratch string) *KsResult {
 		case porcupine.Illegal:
 			var hs []string
 			for _, h := range s.hist {
-				hs = append(hs, fmt.Sprintf("T%d[%d..%d] %s(%s,%s)->key=%s err=%q", h.Task, h.Call, h.Return, h.Op.Kind, h.Op.Addr, trunc(h.Op.Key, 8), trunc(h.OutKey, 8), trunc(h.OutErr, 40)))
+				hs = append(hs, fmt.Sprintf("T%d[%d..%d] %s(%s,%s)->key=%s err=%q", h.Task, h.Call, h.Return, h.Op.Kind, h.Op.Addr, tailHex(h.Op.Key), tailHex(h.OutKey), trunc(h.OutErr, 40)))
 			}
 			viol("C20", "keystore.not_linearizable", "the recorded history has no sequential explanation: %s", strings.Join(hs, " | "))
 		case porcupine.Unknown:
@@ -627,6 +640,13 @@ func runKsScript(sc *KsScript, scratch string) *KsResult {
 	sc2.Picks = s.usedPick
 	res.Script = &sc2
 	return res
+}
+
+func tailHex(k string) string {
+	if len(k) > 8 {
+		return "…" + k[len(k)-8:]
+	}
+	return k
 }
 
 func tailStrs(a []string, n int) []string {
